@@ -159,7 +159,51 @@ _installed = [False]
 _MODULES = (_threading, _os, _fcntl, _time)
 
 
+_REAL_LOCK = type(_threading.Lock())
+_saved_guards = {}
+
+
+class Guard:
+    """A module-level lock of the library (not one of a lock object): cooperative under the baton scheduler - a real
+    one held across a schedule point would block the thread that has the baton -, immediate in sequential runs; it
+    is not part of the modelled protocol, so it writes no label."""
+
+    def __init__(self):
+        self.owner = None
+
+    def acquire(self, blocking=True, timeout=-1):
+        E = BENV
+        if E is not None and _threading.current_thread().name in getattr(E.S, 'threads', {}):
+            E.S.point('guard.acquire', enabled=lambda: self.owner is None)
+        self.owner = _threading.current_thread().name
+        return True
+
+    def release(self):
+        self.owner = None
+
+    def __enter__(self):
+        self.acquire()
+        return self
+
+    def __exit__(self, *a):
+        self.release()
+
+    def locked(self):
+        return self.owner is not None
+
+
+def _guards(FL):
+    for name, val in _saved_guards.items():
+        setattr(FL, name, val)
+    _saved_guards.clear()
+    for name, val in list(vars(FL).items()):
+        if isinstance(val, _REAL_LOCK):
+            _saved_guards[name] = val
+            setattr(FL, name, Guard())
+
+
 def _attach(FL, pairs):
+    _guards(FL)
     missing = attach.substitute(FL, pairs, _MODULES)
     need = [r for r in missing if r in (_os.open, _os.close, _fcntl.flock, _time.time)]
     if need:
